@@ -585,11 +585,14 @@ func runGbSession(c GbCase) *pbt.Violation {
 	dial := func() net.Conn {
 		conn, err := net.DialTimeout("tcp", fmt.Sprintf("127.0.0.1:%d", resp.Data.Port), 10*time.Second)
 		if err != nil {
-			lalclient.Harness("c13: dial gb28181 tcp port %d: %v", resp.Data.Port, err)
+			return nil
 		}
 		return conn
 	}
 	conn := dial()
+	if conn == nil {
+		lalclient.Harness("c13: cannot connect to the gb28181 tcp port %d of a session that was just started", resp.Data.Port)
+	}
 	defer conn.Close()
 	first := conn
 	second := -1
@@ -620,7 +623,12 @@ func runGbSession(c GbCase) *pbt.Violation {
 		if i == second {
 			flush()
 			waitGbDrained(s, total)
-			conn = dial() // lal closes the first connection and reads this one with a second goroutine
+			c2 := dial() // lal closes the first connection and reads this one with a second goroutine
+			if c2 == nil {
+				// refused: the ticks made lal dispose the session, which closes its listener.  Nothing more to send.
+				return probe(s, fd)
+			}
+			conn = c2
 			defer conn.Close()
 			if c.FirstAlso {
 				writeSliced(first, gbFrame(raw, len(raw)), nil)
@@ -754,7 +762,7 @@ func TestGb28181Unpacker(t *testing.T) {
 	resetNotes()
 	pbt.Run(t, pbt.Spec[GbCase]{
 		ID: "C13", Name: "gb28181-ps-rtp", Gen: genGbCase("l1"), Run: runGbL1, Classify: classifyGb, Isolate: true,
-		Quick: 1000, Thorough: 6000,
+		Quick: 150, Thorough: 3000,
 	})
 }
 
@@ -762,7 +770,7 @@ func TestGb28181Tcp(t *testing.T) {
 	resetNotes()
 	pbt.Run(t, pbt.Spec[GbCase]{
 		ID: "C13", Name: "gb28181-tcp-session", Gen: genGbCase("tcp"), Run: runGbSession, Classify: classifyGb, Isolate: true,
-		Quick: 120, Thorough: 600,
+		Quick: 25, Thorough: 300,
 	})
 }
 
@@ -770,6 +778,6 @@ func TestGb28181Udp(t *testing.T) {
 	resetNotes()
 	pbt.Run(t, pbt.Spec[GbCase]{
 		ID: "C13", Name: "gb28181-udp-session", Gen: genGbCase("udp"), Run: runGbSession, Classify: classifyGb, Isolate: true,
-		Quick: 100, Thorough: 500,
+		Quick: 25, Thorough: 250,
 	})
 }
